@@ -224,8 +224,9 @@ def first_component_kinds(fnode, param_kinds):
 # place) | ("list", s) | ("dict", s) | ("tuple", (s1, ...)) | "raw" (anything else).  Flow-insensitive fixpoint over one function
 # body: comprehensions, loops (incl. enumerate / zip), appends / extends / item stores, tuple unpacking, slices, repetition.
 def kjoin(a, b):
-    """Key classes of a mapping: bot < lit (string literals that are not markers) < raw (anything else) < marker (a literal marker)."""
-    order = {"bot": 0, "lit": 1, "raw": 2, "marker": 3}
+    """Key classes of a mapping: bot < lit (string literals that are not markers) < str (str objects whose text is not chosen by the
+    code: document content) < raw (anything else, kind unknown) < marker (a literal marker)."""
+    order = {"bot": 0, "lit": 1, "str": 2, "raw": 3, "marker": 4}
     return a if order[a] >= order[b] else b
 
 
@@ -302,8 +303,9 @@ def key_class(e, lit_names=()):
 
 
 class Provenance:
-    def __init__(self, fnode, normalisers, attr_env=None, call_shape=None):
+    def __init__(self, fnode, normalisers, attr_env=None, call_shape=None, kinds_of=None):
         self.fn, self.norm = fnode, normalisers          # {callee name: result shape}
+        self.kinds_of = kinds_of                         # fn(function node) -> c05kinds.Kinds | None: decides whether a key expression is a str
         self.attr_env = attr_env                         # shared {attribute name: shape} (object-insensitive) or None
         self.call_shape = call_shape                     # fn(name) -> shape | None: return shape of a module-level function
         self.lit_names = {}                              # names bound only to string literals -> their key class
@@ -324,6 +326,18 @@ class Provenance:
             self.block(fnode.body)
             if self.env == before:
                 break
+
+    def kc(self, e):
+        """Key class of a key expression: a literal of the code, else `str` when its kind is shown to be str (c05kinds), else raw."""
+        k = key_class(e, self.lit_names)
+        if k == "raw" and self.kinds_of is not None:
+            try:
+                kk = self.kinds_of(self.fn)
+                if kk is not None and kk.of(e) == {"str"}:
+                    return "str"
+            except Exception:  # noqa  (a shape the kind flow does not know: stays raw)
+                return "raw"
+        return k
 
     def get(self, name):
         return self.env.get(name, "bot")
@@ -353,7 +367,7 @@ class Provenance:
             if isinstance(cur, tuple) and cur[0] == "list":
                 self.put(target.value.id, ("list", shape))
             else:
-                self.put(target.value.id, ("dict", shape, key_class(target.slice, self.lit_names)))
+                self.put(target.value.id, ("dict", shape, self.kc(target.slice)))
         elif isinstance(target, ast.Starred):
             self.bind(target.value, "raw")
         elif isinstance(target, ast.Attribute) and self.attr_env is not None:
@@ -362,7 +376,7 @@ class Provenance:
                 and not isinstance(target.slice, ast.Slice):
             a_ = target.value.attr
             cur = self.attr_env.get(a_, "bot")
-            new = ("list", shape) if isinstance(cur, tuple) and cur[0] == "list" else ("dict", shape, key_class(target.slice, self.lit_names))
+            new = ("list", shape) if isinstance(cur, tuple) and cur[0] == "list" else ("dict", shape, self.kc(target.slice))
             self.attr_env[a_] = sjoin(cur, new)
         # attribute stores are sinks, handled by the caller
 
@@ -401,7 +415,7 @@ class Provenance:
             out, kc = "bot", "bot"
             for k, v in zip(e.keys, e.values):
                 if k is not None:
-                    out, kc = sjoin(out, self.ev(v)), kjoin(kc, key_class(k, self.lit_names))
+                    out, kc = sjoin(out, self.ev(v)), kjoin(kc, self.kc(k))
                 else:
                     sv_ = self.ev(v)
                     out, kc = sjoin(out, selem(sv_)), kjoin(kc, sv_[2] if isinstance(sv_, tuple) and sv_[0] == "dict" and len(sv_) > 2 else "raw")
@@ -410,7 +424,7 @@ class Provenance:
             for g in e.generators:
                 self.bind(g.target, selem(self.ev(g.iter)))
             if isinstance(e, ast.DictComp):
-                return ("dict", self.ev(e.value), key_class(e.key, self.lit_names))
+                return ("dict", self.ev(e.value), self.kc(e.key))
             return ("list", self.ev(e.elt))
         if isinstance(e, ast.Subscript):
             base = self.ev(e.value)
@@ -510,7 +524,7 @@ class Provenance:
                 elif e.func.attr == "update":
                     new = x if isinstance(x, tuple) and x[0] == "dict" else ("dict", "raw", "raw")
                 else:
-                    new = ("dict", x, key_class(e.args[0], self.lit_names))
+                    new = ("dict", x, self.kc(e.args[0]))
                 self.attr_env[a_] = sjoin(cur, new)
                 return
             if isinstance(e, ast.Call) and isinstance(e.func, ast.Attribute) and isinstance(e.func.value, ast.Name):
@@ -529,7 +543,7 @@ class Provenance:
                     self.put(acc, u if isinstance(u, tuple) and u[0] == "dict" else ("dict", selem(u) if u != "raw" else "raw", "raw"))
                     return
                 if m == "setdefault" and len(e.args) == 2:
-                    self.put(acc, ("dict", self.ev(e.args[1]), key_class(e.args[0], self.lit_names)))
+                    self.put(acc, ("dict", self.ev(e.args[1]), self.kc(e.args[0])))
                     return
                 if m in ("pop", "clear", "sort", "reverse", "remove"):
                     return
@@ -593,16 +607,27 @@ class ModuleFlow:
     """Provenance over a whole module: attributes are tracked by name (object-insensitive), module-level functions by the
     join of what they return (memoised, recursion-guarded).  Used for the key classes of mapping-typed fields."""
 
-    def __init__(self, module):
+    def __init__(self, module, norm=None):
         self.m = module
+        self.norm = dict(norm or {})
         self.attr_env = {}
         self._ret, self._busy = {}, set()
+        self._kinds, self._mk = {}, None
         fns = [f for q, f in module.functions.items()]
         for _ in range(3):
             before = dict(self.attr_env)
-            self.provs = {id(f): Provenance(f, {}, self.attr_env, self.ret_shape) for f in fns}
+            self.provs = {id(f): Provenance(f, self.norm, self.attr_env, self.ret_shape, self.kinds_of) for f in fns}
             if self.attr_env == before:
                 break
+
+    def kinds_of(self, fnode):
+        """Kind environment (c05kinds.Kinds) of one function of the module, helper results per call site."""
+        from contracts import c05kinds as K
+        if id(fnode) not in self._kinds:
+            if self._mk is None:
+                self._mk = K.ModuleKinds(self.m)
+            self._kinds[id(fnode)] = K.Kinds(fnode, None, self._mk.call_kinds, None, self_name="", call_parts=self._mk.call_parts)
+        return self._kinds[id(fnode)]
 
     def ret_shape(self, name):
         fn = self.m.functions.get(name)
@@ -614,7 +639,7 @@ class ModuleFlow:
             return "bot"
         self._busy.add(name)
         try:
-            pv_ = Provenance(fn, {}, self.attr_env, self.ret_shape)
+            pv_ = Provenance(fn, self.norm, self.attr_env, self.ret_shape, self.kinds_of)
             out = "bot"
             for _ln, sh in pv_.sinks("return"):
                 out = sjoin(out, sh)
@@ -634,10 +659,17 @@ class ModuleFlow:
         fn = self.enclosing(expr)
         if fn is None:
             return "raw"
-        return Provenance(fn, {}, self.attr_env, self.ret_shape).ev(expr)
+        return Provenance(fn, self.norm, self.attr_env, self.ret_shape, self.kinds_of).ev(expr)
 
 
 def shape_has_dict(shape):
     if shape[0] == "dict":
         return True
     return any(shape_has_dict(x) for x in shape[1:] if isinstance(x, tuple))
+
+
+def shape_has_str_keyed_dict(shape):
+    """A Dict[str, ...] anywhere in a hint shape."""
+    if shape[0] == "dict" and shape[1] == ("prim", PRIMS["str"]):
+        return True
+    return any(shape_has_str_keyed_dict(x) for x in shape[1:] if isinstance(x, tuple))
